@@ -111,6 +111,22 @@ theorem scale_out_edit_creates_only_next (v : SetView) (cur upd : String) (pods 
   rw [hn, List.erase_append_right _ hnot]
   simpa using hperm
 
+/-- **plain scale-in by one from a converged set**: the pods are exactly those of `desired (r + 1) S`, `replicas` becomes `r`
+    with the annotation untouched; the next reconcile deletes the pod at the top ordinal (`scale_in_removes_top`) and does
+    nothing else — under either policy, every strategy and every fault plan -/
+theorem scale_in_edit_deletes_only_top (v : SetView) (cur upd : String) (pods : List Pod) (f : Faults) (r : Int)
+    (h0 : 0 ≤ r) (hr : v.replicas = some r) (hdel : v.deleting = false)
+    (hperm : (pods.map Pod.ord).Perm (desired (r + 1) v.slots))
+    (hgood : ∀ p ∈ pods, p.healthy = true ∧ p.rev = upd ∧ p.idOk = true ∧ p.stOk = true) :
+    ∃ n, desired (r + 1) v.slots = desired r v.slots ++ [n] ∧ ∃ pk ∈ pods, pk.ord = n ∧
+      (updateStatefulSet v cur upd pods f).1.acts = [.delete n pk.id .scaleDown] ∧
+      (f.hit 1 n = false → (updateStatefulSet v cur upd pods f).2 = .ok) := by
+  obtain ⟨n, hn, hn0, -, hlt⟩ := desired_succ r v.slots h0
+  have hnot : n ∉ desired r v.slots := fun h => by have := hlt n h; omega
+  refine ⟨n, hn, slot_k_only_core v cur upd pods f r n hr hnot (isCondemned_of_not_desired hn0 hnot) hdel ?_ hgood⟩
+  rw [hn] at hperm
+  exact hperm.trans (List.perm_append_comm.trans (by simp))
+
 /-! non-vacuity: replicas 3, slots [] after the user un-listed 1 (before: replicas 2, slots [1], pods 0 and 2) -/
 private def exV : SetView :=
   { replicas := some (2 + 1), slots := [1].filter (fun s => decide (s ≠ 1)), parallel := false, strat := .rolling,
